@@ -389,7 +389,24 @@ func hugeDeclaration(binary bool, in []byte) bool {
 		case op == 0x0a || op == 0x07 || op == 0x17 || op == 0x0b || op == 0x10:
 			off += 24
 		default:
-			return false
+			return hugeAnywhere(in)
+		}
+	}
+	return hugeAnywhere(in)
+}
+
+// hugeAnywhere: after a frame the parser rejects it may resynchronise at
+// offsets the walk above does not predict; be conservative and look at every
+// offset that could be taken for the start of a store frame.
+func hugeAnywhere(in []byte) bool {
+	const limit = 16 << 20
+	for off := 0; off+24 <= len(in); off++ {
+		if in[off] != 0x80 || !isSetFamily(int(in[off+1])) {
+			continue
+		}
+		kl, el, total, _ := declaredBinary(in[off:])
+		if total >= uint64(kl+el) && total-uint64(kl) > limit {
+			return true
 		}
 	}
 	return false
